@@ -1516,8 +1516,11 @@ class Slave(logging_utils.LoggableMixin):
                         pass
             elif method == 'GET':
                 # Intercept this API call so that we can update locally cached attributes whose values change often and
-                # therefore do not trigger a device-update event
-                attrs = {n: response_body[n] for n in _NO_EVENT_DEVICE_ATTRS if n in response_body}
+                # therefore do not trigger a device-update event; attributes pending provisioning keep their pending value
+                attrs = {
+                    n: response_body[n] for n in _NO_EVENT_DEVICE_ATTRS
+                    if n in response_body and n not in self._provisioning_attrs
+                }
                 await self.update_cached_attrs(attrs, partial=True)
         elif path == '/firmware':
             if method == 'PATCH' and not self._fwupdate_poll_task:
